@@ -3,6 +3,21 @@
 import json, os
 HERE = os.path.dirname(os.path.dirname(os.path.abspath(__file__)))
 CHECKS = {
+ "C05": dict(technique="reference-evaluator monitor on Quantity() over generated expression trees",
+             text="Exploration: thousands of seeded expression trees (targeted shapes for the interaction of collector branches) go through the real Quantity(); each outcome (scale factor, dimension, refusal) is compared with an independent reference evaluator (own unit table, exponent vectors, refusal rule of the statement) with conditioning/precision filters so that float artefacts end inconclusive, never as violations.",
+             note="Trusted: vf/units_ref.py unit table, mpmath arithmetic, SymPy canonicalisation of the input tree (shared by both sides).", ref="§4 C05"),
+ "C06": dict(technique="reference dimension algebra + numeric value equality + commuting diagram through Quantity()",
+             text="Exploration: seeded trees over dimensioned symbols, applied functions, (zero-valued) quantities and numbers go through the real collect_expression_and_dimension; error <=> reference error, dimension == reference exponent vector (value-aware ANY), returned expression numerically equal to the input, and Quantity(e[symbols:=quantities]) has the inferred dimension.",
+             note="Trusted: vf/refdim.py rules (the property statement), SymPy dimsys_SI expansion of declared dimensions, mpmath.", ref="§4 C06"),
+ "C07": dict(technique="algebraic-law monitor on convert_to/convert_to_si/evaluate_expression/Celsius helpers",
+             text="Exploration: generated (quantity, unit, unit) triples with compound/prefixed/rational-power units (mass exponents other than 0/1 included); definition, composition, SI agreement, refusal, convert_to_float, evaluate_expression and Celsius inverse laws are checked against the own unit table; prefixes table exhaustively.",
+             note="Trusted: vf/units_ref.py unit table (SI brochure).", ref="§4 C07"),
+ "C08": dict(technique="reference-predicate monitor on assert_equal/approx_equal_*/assert_equal_vectors at the tolerance boundary",
+             text="Exploration: generated operand pairs straddling the tolerance boundary with a guard band, complex parts, zero tolerances, unit re-spellings, operand swaps, bare numbers, dimension= with a quantity rhs, vectors of unequal length; each verdict is re-judged by a reference predicate on exact rationals that only asserts the two one-sided implications of the statement.",
+             note="Trusted: exact rational arithmetic, own unit table. Absolute tolerances are only exercised on mass-free dimensions (scale factors are gram-based).", ref="§4 C08"),
+ "C14": dict(technique="two independent R^3 interpreters (generator tree vs returned SymPy object), dual-number derivatives",
+             text="Exploration: seeded expression trees over vector symbols (random id()-rank permutations, shared display names), built with auto-evaluation and evaluate=False+doit(), plus first/second derivatives of trees over vector functions; the returned object is interpreted in R^3 and compared at 3 random assignments with the value of what was written; a small family of nested products is enumerated exhaustively.",
+             note="Trusted: coordinate formulas of dot/cross in vf/vecsem.py, mpmath (40 digits).", ref="§4 C14"),
  "C20": dict(technique="reference-table monitor on the imported constants objects",
              text="Exhaustive over the finite table: every exported/public constant object is observed after the real import (scale factor under the ratio convention, convert_to_si, dimension exponent vector) and compared with a committed CODATA/IAU table; the seven identities are evaluated on the observed values and through the library's own Quantity arithmetic.",
              note="Trusted: vf/data/constants_ref.json (typed from CODATA 2018/2022, IAU 2015 B2/B3), SymPy's dimension system.", ref="§4 C20"),
